@@ -56,15 +56,6 @@ impl Tree {
     pub fn children(&self, m: usize) -> Vec<usize> {
         (0..self.n()).filter(|&c| self.mods[c].parent == Some(m)).collect()
     }
-    pub fn depth(&self, m: usize) -> usize {
-        let mut d = 0;
-        let mut c = m;
-        while let Some(p) = self.mods[c].parent {
-            d += 1;
-            c = p;
-        }
-        d
-    }
     pub fn find(&self, path: &str) -> Option<usize> {
         (0..self.n()).find(|&m| self.path(m) == path)
     }
